@@ -457,6 +457,47 @@ def invalid_cases():
         edzed.Input('a', initdef=0)
         edzed.Override('o').connect(input=['a'], override='a')
 
+    def override_empty_group():
+        edzed.Input('a', initdef=0)
+        edzed.Override('o').connect(input=(), override='a')
+
+    def override_empty_list():
+        edzed.Input('a', initdef=0)
+        edzed.Override('o').connect(input='a', override=[])
+
+    def custom_single_given_empty_group():
+        class CB(edzed.CBlock):
+            def calc_output(self):
+                return 0
+
+            def start(self):
+                super().start()
+                self.check_signature({'x': None})
+        edzed.Input('a', initdef=0)
+        CB('c').connect(x=[])
+
+    def custom_group_given_single():
+        class CB(edzed.CBlock):
+            def calc_output(self):
+                return 0
+
+            def start(self):
+                super().start()
+                self.check_signature({'g': [0, None]})
+        edzed.Input('a', initdef=0)
+        CB('c').connect(g='a')
+
+    def custom_group_too_short():
+        class CB(edzed.CBlock):
+            def calc_output(self):
+                return 0
+
+            def start(self):
+                super().start()
+                self.check_signature({'g': [1, None]})
+        edzed.Input('a', initdef=0)
+        CB('c').connect(g=())
+
     def funcblock_mismatch():
         edzed.Input('a', initdef=0)
         edzed.FuncBlock('f', func=lambda x, y: 0).connect('a')
@@ -498,7 +539,9 @@ def invalid_cases():
         unknown_input, unknown_not, double_underscore_not, foreign_block, foreign_block_same_name,
         foreign_event_dest, event_dest_unknown,
         event_dest_cblock, event_dest_cblock_obj, filter_ctrl_unknown, ifnotinit_cblock,
-        not_unconnected, not_two_inputs, override_missing, override_group, funcblock_mismatch,
+        not_unconnected, not_two_inputs, override_missing, override_group, override_empty_group,
+        override_empty_list, custom_single_given_empty_group, custom_group_given_single,
+        custom_group_too_short, funcblock_mismatch,
         duplicate_name, duplicate_name_sc, connect_twice, connect_nothing, group_as_positional,
         reserved_input_name, ext_event_cblock, ext_event_unknown)]
 
